@@ -635,6 +635,50 @@ def r04d(rep, F):
     rep.add('R04d', ln.name, 'fold-shape', why is None, ln.loc, why or 'sum of distance(s[i-1], s[i]) for i = 1 .. size-1')
 
 
+def r04f(rep, F):
+    rep.rule('R04f', 'cost bookkeeping moves together: in planners whose tree node has the fields parent, cost and incCost (cost(m) == '
+                     'combine(cost(parent(m)), incCost(m)) is the invariant updateChildCosts relies on), every block that assigns '
+                     'X->parent a non-null node also assigns X->incCost and X->cost for the same X -- a parent change that keeps the old '
+                     'incremental cost makes every later cost propagation under-/over-state the path cost')
+    n = 0
+    recs = {name for name, rs in F.records.items() if {'parent', 'cost', 'incCost'} <= {fl['name'] for fl in rs[0].get('fields', [])}}
+    if not recs:
+        raise AnalysisBroken('R04f: no tree-node record with parent / cost / incCost found')
+    for f in F.functions:
+        if not f.body or '/planners/' not in f.file:
+            continue
+        for x in f.walk():
+            if x['k'] != 'BinaryOperator' or x.get('op') != '=':
+                continue
+            t = f.strip(x['ch'][0])
+            if t is None or t['k'] != 'MemberExpr' or t.get('name') != 'parent' or (t.get('q') or '').rsplit('::', 1)[0] not in recs:
+                continue
+            r = f.strip(x['ch'][1])
+            if r is not None and r['k'] in ('CXXNullPtrLiteralExpr', 'GNUNullExpr'):
+                continue
+            base = f.fp(t['ch'][0])
+            blk = None
+            for anc in f.ancestors(x['id']):
+                if anc['k'] == 'CompoundStmt':
+                    blk = anc
+                    break
+            if blk is None:
+                continue
+            have = set()
+            for y in f.walk(blk['id']):
+                if (y['k'] == 'BinaryOperator' and y.get('op') == '=') or (y['k'] == 'CXXOperatorCallExpr' and y.get('oop') == '=' and len(y['ch']) == 2):
+                    ty = f.strip(y['ch'][0])
+                    if ty is not None and ty['k'] == 'MemberExpr' and ty.get('name') in ('cost', 'incCost') and f.fp(ty['ch'][0]) == base:
+                        have.add(ty['name'])
+            n += 1
+            missing = sorted({'cost', 'incCost'} - have)
+            rep.add('R04f', f.name, 'parent-cost-incCost@%s#%d' % (re.sub(r'#\d+', '', base), len([1 for o in rep.obl if o['rule'] == 'R04f' and o['function'] == f.name])),
+                    not missing, f.where(x), 'parent, cost and incCost assigned together' if not missing else
+                    '%s->parent is re-assigned without %s in the same block: the stored cost no longer equals the cost of the path to the root'
+                    % (re.sub(r'#\d+', '', base), ' and '.join('->' + m for m in missing)))
+    rep.require_count('R04f', 'parent re-assignments with cost bookkeeping', n, 4)
+
+
 def run(rep):
     F = facts.load_units(UNITS)
     rep.units.update(UNITS)
@@ -643,3 +687,4 @@ def run(rep):
     r04b(rep, F)
     r04c(rep, F)
     r04d(rep, F)
+    r04f(rep, F)
